@@ -18,6 +18,7 @@ EXPLANATION = (
     "function); spatial_derivatives(q)[1] == d/dq_i of the predictive variance; gradient(q)[1] == "
     "d^2 k/dq dq'|_{q'=q} - (dK_qx)(K_xx+S)^-1(dK_xq) (mixed second derivative taken of the real kernel call, solve "
     "certified), symmetric; a batched call equals the stack of single-point calls."
+    ' Sums of kernels: the library either declines (NotImplementedError) or returns the true derivatives. Integer-typed query points give the values of the same points as floats.'
 )
 BOUNDS = {"quick": "n<=2 training points, d<=2", "thorough": "n=3 training points, d<=2"}
 ASSUMPTIONS = [
